@@ -24,8 +24,8 @@ ROOT = os.path.dirname(os.path.dirname(os.path.abspath(__file__)))
 PROPERTY = "C03"
 LEVEL = "exploration"
 RULE = ("histories of up to 12 steps over a per-run catalogue of inputs (generated peptides, inputs with an element "
-        "missing from the valence table, ligands with covalently coupled groups, multi-conformation files, buried "
-        "clusters of coupled acids, the corpus file 1HPX) x option sets (default, -d, -i, -c, -k, --protonate-all, "
+        "missing from the valence table, ligands with covalently coupled groups, multi-conformation files, a CR LF copy, "
+        "buried clusters of coupled acids, the corpus file 1HPX) x option sets (default, -d, -i, -c, -k, --protonate-all, "
         "-g/-w, -p variant, -q); rules: run from stream, run from path (drawn directory and cwd), CLI main() with "
         "several files, allocation churn, gc toggle, chdir; 16 interpreters with different hash seeds. Non-trivial: "
         "the history repeats an (input, options) pair after a different run, or runs -d on a coupled system, or "
@@ -99,6 +99,9 @@ def build_catalogue(tier, seed):
     for s in collect(gen.structures(max_res=14, allow_hetero=False, allow_truncation=False), nplain + 2, "plain"):
         if len(out) < nplain and len(s.atoms()) > 15:
             out.append({"kind": "plain", "text": s.text})
+    if out:
+        # the same content with CR LF line ends: a path is read with newline translation, a stream is not
+        out.append({"kind": "crlf", "text": out[0]["text"].replace("\n", "\r\n")})
     base = collect(gen.structures(max_res=12, allow_hetero=False, allow_truncation=False), 6, "base")
     base = [s for s in base if len(s.atoms()) > 15] or base
     for k, el in enumerate(["XX", "QQ"] if tier == "quick" else ["XX", "QQ", "ZZ", "XA"]):
